@@ -593,6 +593,51 @@ pub fn c14<T: Px>(thorough: bool) -> Vec<CellDef> {
         ));
     }
     {
+        // exact tie + one lone bit at every distance below the guard bit, at every scale (f64 and integer sources)
+        let lim = (n as i32 - 2) * (1 << es) + 2;
+        let mut l64: Vec<u128> = vec![];
+        for (m, e) in tie_bit_values(n, es, 52, -lim..=lim) {
+            for neg in [false, true] {
+                if let Some(b) = o::to_f64_bits_exact(o::Ex { neg, m, e, sticky: false }) {
+                    l64.push(b as u128);
+                }
+            }
+        }
+        l64.sort();
+        l64.dedup();
+        v.push(CellDef::new("C14", format!("{}/from_f64#tiebit", T::name()), Space::list(l64, "exact ties of the target and tie + one lone bit d = 1..52 places below the guard bit, every scale, both signs"), move |k| f64case(f64::from_bits(k as u64))));
+        let mut li: Vec<u128> = vec![];
+        for (m, e) in tie_bit_values(n, es, 62, 1..=63) {
+            if e >= 0 && (128 - m.leading_zeros() as i32 + e) <= 64 {
+                li.push(m << e as u32);
+            }
+        }
+        li.sort();
+        li.dedup();
+        let li2: Vec<u128> = li.iter().copied().filter(|&x| x < (1u128 << 63)).flat_map(|x| [x, (x as i64).wrapping_neg() as u64 as u128]).collect();
+        v.push(CellDef::new("C14", format!("{}/from_u64#tiebit", T::name()), Space::list(li, "integers that are an exact tie of the target or tie + one lone bit, every bit length"), move |k| {
+            let x = k as u64;
+            let (want, nt) = refs::from_int(n, es, x as i128);
+            let got = guard(|| {
+                let (a, b) = (T::from_u64(x).unwrap().tbr(), T::into_u64(x).unwrap().tbr());
+                let c = if x <= u32::MAX as u64 { T::from_u32(x as u32).map_or(a, |p| p.tbr()) } else { a };
+                if a == b && b == c { a as u128 } else { (a as u128) | (b as u128) << 32 | 1 << 100 }
+            });
+            Out::cmp(got, (want as u128) << s, nt).ops(3)
+        }));
+        if T::from_i64(0).is_some() {
+            v.push(CellDef::new("C14", format!("{}/from_i64#tiebit", T::name()), Space::list(li2, "the same family as i64, both signs"), move |k| {
+                let x = k as u64 as i64;
+                let (want, nt) = refs::from_int(n, es, x as i128);
+                let got = guard(|| {
+                    let (a, b) = (T::from_i64(x).unwrap().tbr(), T::into_i64(x).unwrap().tbr());
+                    if a == b { a as u128 } else { (a as u128) | (b as u128) << 32 | 1 << 100 }
+                });
+                Out::cmp(got, (want as u128) << s, nt).ops(2)
+            }));
+        }
+    }
+    {
         let low = if thorough { 10 } else { 14 };
         v.push(CellDef::new(
             "C14",
